@@ -51,6 +51,8 @@ class _BaseTransport:
     def get_extra_info(self, name, default=None):
         if name == "peername":
             return self.remote
+        if name == "socket" and getattr(self, "fake_sock", None) is not None:
+            return self.fake_sock
         return default  # 'socket' -> None: the library's keep-alive block is skipped by its own None test
 
     def get_protocol(self):
@@ -134,6 +136,20 @@ class SimUdpTransport(_BaseTransport, asyncio.DatagramTransport):
             self._protocol.error_received(oserror(payload))
         else:
             raise HarnessError(f"udp delivery kind {kind}")
+
+
+class _FakeSock:
+    """What transport.get_extra_info('socket') gives: only setsockopt/ioctl, which fail with the configured errno."""
+
+    def __init__(self, net, errno_):
+        self._net, self._errno = net, errno_
+
+    def setsockopt(self, *args):
+        self._net.count("fault:setsockopt_error")
+        raise oserror(self._errno)
+
+    def ioctl(self, *args):
+        raise oserror(self._errno)
 
 
 class SimTcpTransport(_BaseTransport, asyncio.Transport):
@@ -388,6 +404,9 @@ class SimNet:
             raise oserror(outcome.get("errno", _errno.EHOSTUNREACH))
         protocol = factory()
         tr = SimTcpTransport(loop, self, protocol, (self.resolve(host), port))
+        if outcome.get("sockopt") is not None:
+            # a platform whose sockets refuse (some of) the keep-alive options: setsockopt raises OSError
+            tr.fake_sock = _FakeSock(self, outcome["sockopt"])
         waiter = loop.create_future()
         loop.call_soon(protocol.connection_made, tr)
         loop.call_soon(_set_unless_cancelled, waiter)
